@@ -101,7 +101,8 @@ where
     }
 
     fn open_file(&self, path: &str) -> VfsResult<Box<dyn SeekAndRead + Send>> {
-        match T::get(path.split_at(1).1) {
+        // the root is the empty string: treat it like any other directory instead of slicing into it
+        match T::get(normalize_path(path)?) {
             None => Err(VfsErrorKind::FileNotFound.into()),
             Some(file) => Ok(Box::new(Cursor::new(file.data))),
         }
